@@ -709,7 +709,15 @@ impl ExecutionState {
     /// its execution.
     pub fn maybe_yield() -> bool {
         Self::with(|state| {
-            if std::thread::panicking() && !state.in_cleanup {
+            // While the execution is being torn down (it was stopped by the scheduler or by a
+            // `ContinueAfter` step bound, and the stacks of unfinished tasks are being unwound) there is
+            // nothing left to schedule: a scheduling point reached from a destructor, e.g. the drop of
+            // a lock guard held by a suspended task, must simply fall through.
+            if state.in_cleanup {
+                return false;
+            }
+
+            if std::thread::panicking() {
                 return true;
             }
 
